@@ -28,6 +28,7 @@ RULES = ("C09.sound (TABLE on a catalogue: verdict vs. language), C09.verdict (T
          "C09.repeat (TABLE), C09.fold (TABLE), C09.sibling (SIBLING), C09.upper (TABLE on a grid)")
 
 WHEN = "query::When"
+DT = "token::variance::invariant::term::DisjunctiveTerm"
 REF_AND = lambda a, b: "Never" if "Never" in (a, b) else ("Sometimes" if "Sometimes" in (a, b) else "Always")
 REF_OR = lambda a, b: "Always" if "Always" in (a, b) else ("Sometimes" if "Sometimes" in (a, b) else "Never")
 REF_CERTAINTY = lambda a, b: a if a == b and a != "Sometimes" else "Sometimes"
@@ -106,7 +107,6 @@ def rule_verdict(F, R):
         want = "Always" if exh else "Never"
         R.check(isinstance(res, Adt) and res.variant == want, "C09.verdict", "BoundaryTerm::is_exhaustive/conjunctive/" + name, want,
                 bt.where(), fail_msg="conjunctive term %s gives %r, expected %s" % (name, res, want))
-    DT = "token::variance::invariant::term::DisjunctiveTerm"
     combos = {"[]": [], "[exh]": ["unbounded"], "[non]": ["inv2"], "[exh,exh]": ["unbounded", "lower2"],
               "[exh,non]": ["unbounded", "upper2"], "[non,exh]": ["inv0", "lower2"], "[non,non]": ["inv0", "both1+2"],
               "[exh,exh,non]": ["unbounded", "lower2", "inv2"]}
@@ -192,33 +192,44 @@ def rule_suffix(F, R, maxlen):
 
 
 def rule_repeat(F, R):
+    """Necessary for soundness: a term that adds two or more components per iteration is not multiplied by the range of
+    a repetition (`<*/*/>` only reaches even depths), whether it is conjunctive or a branch of a disjunctive term.
+    Whether other terms are multiplied or kept only affects precision (a kept term is `never`) and is a don't-care."""
     it = F.find("<token::variance::TreeExhaustiveness as token::walk::Fold>::finalize")
     insts = F.instances_of(it)
     R.floor("C09.repeat", "finalize instances", len(insts), 1)
     inst = insts[0]
     sep = lambda v: Adt(c10.SEPT, "SeparatedTerm", {"0": Adt(c10.TERM, "Last", {}), "1": v})
+    disj = lambda vs: Adt(c10.COMP, "Disjunctive", {"0": Adt(DT, "DisjunctiveTerm", {"0": RList([sep(v) for v in vs])})})
     terms = {
-        "inv0": (Adt(c10.COMP, "Conjunctive", {"0": sep(c10.inv(0))}), True),
-        "inv1": (Adt(c10.COMP, "Conjunctive", {"0": sep(c10.inv(1))}), True),
-        "inv2": (Adt(c10.COMP, "Conjunctive", {"0": sep(c10.inv(2))}), False),
-        "inv5": (Adt(c10.COMP, "Conjunctive", {"0": sep(c10.inv(5))}), False),
-        "unbounded": (Adt(c10.COMP, "Conjunctive", {"0": sep(c10.unbounded())}), True),
-        "lower2": (Adt(c10.COMP, "Conjunctive", {"0": sep(c10.bounded(Adt(c10.BVR, "Lower", {"0": 2})))}), True),
-        "disjunctive": (Adt(c10.COMP, "Disjunctive", {"0": Sym("branches")}), True),
+        # name -> (term, must be kept in a repetition?)   None = don't-care
+        "inv0": (Adt(c10.COMP, "Conjunctive", {"0": sep(c10.inv(0))}), None),
+        "inv1": (Adt(c10.COMP, "Conjunctive", {"0": sep(c10.inv(1))}), None),
+        "inv2": (Adt(c10.COMP, "Conjunctive", {"0": sep(c10.inv(2))}), True),
+        "inv5": (Adt(c10.COMP, "Conjunctive", {"0": sep(c10.inv(5))}), True),
+        "unbounded": (Adt(c10.COMP, "Conjunctive", {"0": sep(c10.unbounded())}), None),
+        "lower2": (Adt(c10.COMP, "Conjunctive", {"0": sep(c10.bounded(Adt(c10.BVR, "Lower", {"0": 2})))}), None),
+        "disj[1,unbounded]": (disj([c10.inv(1), c10.unbounded()]), None),
+        "disj[2,2]": (disj([c10.inv(2), c10.inv(2)]), True),
+        "disj[1,3]": (disj([c10.inv(1), c10.inv(3)]), None),
     }
     stubs = {"token::variance::finalize": lambda I, a, fn, e: Sym("finalized")}
-    for kind in ("Repetition", "Alternation", "Concatenation"):
-        for name, (term, fin_in_rep) in terms.items():
-            I = Interp(F, stubs)
-            br = Adt(T.BRANCH, kind, {"0": Sym("branch")})
-            res = strip(tabulate.single(I.explore(lambda: I.call_item(it, [Ref(Place(Cell(Sym("self")))), Ref(Place(Cell(br))), term], inst=inst))))
-            finalized = isinstance(res, Sym) and res.name == "finalized"
-            want = fin_in_rep if kind == "Repetition" else True
-            R.check(finalized == want and not isinstance(res, (Top, Panicked)), "C09.repeat", "%s/%s" % (kind, name),
-                    "multiplied by the branch's range" if want else "kept as is (an invariant depth of two or more per "
-                    "iteration reaches only multiples, `<*/*/>`)", it.where(),
-                    fail_msg="finalize(%s, %s) %s the term (result %r); expected %s" % (
-                        kind, name, "multiplies" if finalized else "keeps", res, "multiply" if want else "keep"))
+    n = 0
+    for name, (term, must_keep) in terms.items():
+        I = Interp(F, stubs)
+        br = Adt(T.BRANCH, "Repetition", {"0": Sym("branch")})
+        res = strip(tabulate.single(I.explore(lambda: I.call_item(it, [Ref(Place(Cell(Sym("self")))), Ref(Place(Cell(br))), term], inst=inst))))
+        finalized = isinstance(res, Sym) and res.name == "finalized"
+        n += 1
+        if must_keep is None:
+            R.ok("C09.repeat", "Repetition/" + name, "don't-care (multiplied: %s)" % finalized, it.where(), sample=False)
+            continue
+        R.check(not finalized and not isinstance(res, (Top, Panicked)), "C09.repeat", "Repetition/" + name,
+                "kept as is (two or more components per iteration reach only some depths, `<*/*/>`)", it.where(),
+                fail_msg="finalize(Repetition, %s) %s (result %r); a term that adds two or more components per iteration must not be "
+                         "multiplied by the repetition's range: an open range would make it unbounded and the verdict `always`" % (
+                             name, "multiplies the term" if finalized else "is unanalysable", res))
+    R.floor("C09.repeat", "finalize cells", n, 9)
 
 
 def rule_fold(F, R):
